@@ -126,6 +126,7 @@ package s3mem
 //@ ensures [C09,C05] nonil:  imp(hasObj(b, name), O.data != nil)
 //@ ensures [C02,C10] others: allstr(n, imp(n != name, hasObj(b, n) == old(hasObj(b, n)) && objAt(b, n) == old(objAt(b, n))))
 //@ ensures           noerr:  rerr == nil
+//@ modifies sl_has, sl_val, sl_len, sl_key, issued, it_list, it_idx, fieldof(bucketObject, name), fieldof(bucketObject, data), fieldof(bucketObject, versions), fieldof(bucketData, versionID), fieldof(bucketData, name), fieldof(bucketData, deleteMarker), fieldof(bucketData, lastModified), fieldof(bucketData, body), fieldof(bucketData, hash), fieldof(bucketData, etag), fieldof(bucketData, metadata), fieldof(Backend, versionScratch)
 
 //@ func (*bucket).rmVersion
 //@ props C05 C10 C09
@@ -150,3 +151,178 @@ package s3mem
 //@ ensures [C05,C09] nonil:  imp(hasObj(b, name), O.data != nil)
 //@ ensures [C10]     others: allstr(n, imp(n != name, hasObj(b, n) == old(hasObj(b, n)) && objAt(b, n) == old(objAt(b, n))))
 //@ ensures           noerr:  rerr == nil
+//@ modifies sl_has, sl_val, sl_len, sl_key, issued, it_list, it_idx, fieldof(bucketObject, name), fieldof(bucketObject, data), fieldof(bucketObject, versions), fieldof(bucketData, versionID), fieldof(bucketData, name), fieldof(bucketData, deleteMarker), fieldof(bucketData, lastModified), fieldof(bucketData, body), fieldof(bucketData, hash), fieldof(bucketData, etag), fieldof(bucketData, metadata), fieldof(Backend, versionScratch)
+
+// ---- Backend ---------------------------------------------------------------------------
+
+//@ pred dbInv(db) = db != nil && db.buckets != nil && db.timeSource != nil && db.versionGenerator != nil &&
+//@     allstr(n, imp(has(db.buckets, n) && db.buckets[n] != nil, allocated(db.buckets[n]) && db.buckets[n].name == n &&
+//@         bucketInv(db.buckets[n]) && idsIssued(db.buckets[n])))
+//@ pred bkt(db, n) = db.buckets[n]
+//@ pred hasBucket(db, n) = has(db.buckets, n) && db.buckets[n] != nil
+
+//@ func (*bucketData).toObject
+//@ props C01 C11 C05 C09
+//@ requires          bi:     bi != nil
+//@ requires [C11]    wf:     gofakes3.wfRangeReq(rangeRequest)
+//@ ensures [C11]     badrange: imp(err != nil, obj == nil && errcode(err) == gofakes3.ErrInvalidRange && withBody && rangeRequest != nil)
+//@ ensures [C01,C05] fields: imp(err == nil, obj != nil && obj.Name == bi.name && obj.Size == len(bi.body) && obj.Hash == bi.hash &&
+//@                             obj.Metadata == bi.metadata && obj.VersionID == bi.versionID && obj.IsDeleteMarker == bi.deleteMarker &&
+//@                             obj.Contents != nil)
+//@ ensures [C11]     range:  imp(err == nil && withBody && rangeRequest != nil, obj.Range != nil &&
+//@                             obj.Range.Start == gofakes3.specRangeStart(rangeRequest.FromEnd, rangeRequest.Start, rangeRequest.End, len(bi.body)) &&
+//@                             obj.Range.Length == gofakes3.specRangeLen(rangeRequest.FromEnd, rangeRequest.Start, rangeRequest.End, len(bi.body)))
+//@ ensures [C11]     whole:  imp(err == nil && (!withBody || rangeRequest == nil), obj.Range == nil)
+//@ ensures           fresh:  imp(obj != nil, fresh(obj))
+//@ modifies nothing
+
+//@ func newBucket
+//@ props C02 C09
+//@ ensures [C02]     empty:  ret0 != nil && fresh(ret0) && ret0.name == name && ret0.objects != nil && fresh(ret0.objects) && sl_len(ret0.objects) == 0 &&
+//@                             sl_has(ret0.objects) == nokeys() && ret0.versioning == gofakes3.VersioningNone
+//@ modifies sl_len
+
+//@ func (*Backend).BucketExists
+//@ props C02 C09
+//@ requires          inv:    dbInv(db) && db.lock == 0
+//@ ensures [C02]     ex:     err == nil && exists == hasBucket(db, name)
+//@ ensures           lock:   db.lock == 0
+//@ modifies db.lock
+
+//@ func (*Backend).CreateBucket
+//@ props C02 C17 C10 C09
+//@ requires          inv:    dbInv(db) && db.lock == 0
+//@ ensures [C02]     exists: imp(old(hasBucket(db, name)), errcode(ret0) == gofakes3.ErrBucketAlreadyExists && unchanged())
+//@ ensures [C02]     create: imp(!old(hasBucket(db, name)), ret0 == nil && hasBucket(db, name) && bkt(db, name).name == name &&
+//@                             sl_len(bkt(db, name).objects) == 0 && fresh(bkt(db, name)))
+//@ ensures [C02,C10] others: allstr(n, imp(n != name, has(db.buckets, n) == old(has(db.buckets, n)) && db.buckets[n] == old(db.buckets[n])))
+//@ ensures           lock:   db.lock == 0
+
+//@ func (*Backend).DeleteBucket
+//@ props C02 C10 C09
+//@ requires          inv:    dbInv(db) && db.lock == 0
+//@ ensures [C02]     absent: imp(!old(hasBucket(db, name)), errcode(ret0) == gofakes3.ErrNoSuchBucket && unchanged())
+//@ ensures [C02]     notempty: imp(old(hasBucket(db, name)) && old(sl_len(bkt(db, name).objects)) > 0,
+//@                             errcode(ret0) == gofakes3.ErrBucketNotEmpty && unchanged())
+//@ ensures [C02]     deleted: imp(old(hasBucket(db, name)) && old(sl_len(bkt(db, name).objects)) <= 0, ret0 == nil && !has(db.buckets, name))
+//@ ensures [C02,C10] others: allstr(n, imp(n != name, has(db.buckets, n) == old(has(db.buckets, n)) && db.buckets[n] == old(db.buckets[n])))
+//@ ensures           lock:   db.lock == 0
+//@ modifies db.lock, db.buckets[:]
+
+//@ func (*Backend).ForceDeleteBucket
+//@ props C02 C09
+//@ requires          inv:    dbInv(db) && db.lock == 0
+//@ ensures [C02]     absent: imp(!old(hasBucket(db, name)), errcode(ret0) == gofakes3.ErrNoSuchBucket && unchanged())
+//@ ensures [C02]     deleted: imp(old(hasBucket(db, name)), ret0 == nil && !has(db.buckets, name))
+//@ ensures           lock:   db.lock == 0
+//@ modifies db.lock, db.buckets[:]
+
+//@ func (*Backend).HeadObject
+//@ props C02 C01 C05 C09
+//@ requires          inv:    dbInv(db) && db.lock == 0
+//@ ensures [C02]     nobucket: imp(!hasBucket(db, bucketName), ret0 == nil && errcode(ret1) == gofakes3.ErrNoSuchBucket)
+//@ ensures [C02,C05] nokey:  imp(hasBucket(db, bucketName) && (!hasObj(bkt(db, bucketName), objectName) || objAt(bkt(db, bucketName), objectName).data.deleteMarker),
+//@                             ret0 == nil && errcode(ret1) == gofakes3.ErrNoSuchKey)
+//@ ensures [C02,C01] found:  imp(hasBucket(db, bucketName) && hasObj(bkt(db, bucketName), objectName) && !objAt(bkt(db, bucketName), objectName).data.deleteMarker,
+//@                             ret1 == nil && ret0 != nil && ret0.Size == len(objAt(bkt(db, bucketName), objectName).data.body) &&
+//@                             ret0.Hash == objAt(bkt(db, bucketName), objectName).data.hash && ret0.Metadata == objAt(bkt(db, bucketName), objectName).data.metadata)
+//@ ensures           lock:   db.lock == 0
+//@ modifies db.lock
+
+//@ func (*Backend).GetObject
+//@ props C02 C01 C05 C11 C09
+//@ requires          inv:    dbInv(db) && db.lock == 0
+//@ requires [C11]    wf:     gofakes3.wfRangeReq(rangeRequest)
+//@ ensures [C02]     nobucket: imp(!hasBucket(db, bucketName), ret0 == nil && errcode(ret1) == gofakes3.ErrNoSuchBucket)
+//@ ensures [C02,C05] nokey:  imp(hasBucket(db, bucketName) && (!hasObj(bkt(db, bucketName), objectName) || objAt(bkt(db, bucketName), objectName).data.deleteMarker),
+//@                             ret0 == nil && errcode(ret1) == gofakes3.ErrNoSuchKey)
+//@ ensures [C02,C01] found:  imp(ret1 == nil, ret0 != nil && hasBucket(db, bucketName) && hasObj(bkt(db, bucketName), objectName) &&
+//@                             ret0.Size == len(objAt(bkt(db, bucketName), objectName).data.body) &&
+//@                             ret0.Hash == objAt(bkt(db, bucketName), objectName).data.hash && ret0.Metadata == objAt(bkt(db, bucketName), objectName).data.metadata &&
+//@                             ret0.Contents != nil)
+//@ ensures [C11]     range:  imp(ret1 == nil && rangeRequest != nil, ret0.Range != nil &&
+//@                             ret0.Range.Start == gofakes3.specRangeStart(rangeRequest.FromEnd, rangeRequest.Start, rangeRequest.End, ret0.Size) &&
+//@                             ret0.Range.Length == gofakes3.specRangeLen(rangeRequest.FromEnd, rangeRequest.Start, rangeRequest.End, ret0.Size))
+//@ ensures [C11]     badrange: imp(ret1 != nil && hasBucket(db, bucketName) && hasObj(bkt(db, bucketName), objectName) && !objAt(bkt(db, bucketName), objectName).data.deleteMarker,
+//@                             errcode(ret1) == gofakes3.ErrInvalidRange)
+//@ ensures [C05]     vid:    imp(ret1 == nil && bkt(db, bucketName).versioning != gofakes3.VersioningEnabled, ret0.VersionID == "")
+//@ ensures           lock:   db.lock == 0
+//@ modifies db.lock
+
+//@ func (*Backend).PutObject
+//@ props C02 C01 C05 C08 C12 C10 C09
+//@ let B = bkt(db, bucketName)
+//@ requires          inv:    dbInv(db) && db.lock == 0
+//@ requires [C08,C12] size:  size >= 0 && input != nil && meta != nil
+//@ ensures [C08,C12] reject: imp(err != nil, unchanged())
+//@ ensures [C02]     nobucket: imp(!old(hasBucket(db, bucketName)), err != nil)
+//@ ensures [C02,C01] stored: imp(err == nil, hasBucket(db, bucketName) && B == old(B) && hasObj(B, objectName) &&
+//@                             objAt(B, objectName).data != nil && objAt(B, objectName).data.name == objectName &&
+//@                             len(objAt(B, objectName).data.body) == size && objAt(B, objectName).data.metadata == meta &&
+//@                             !objAt(B, objectName).data.deleteMarker && fresh(objAt(B, objectName).data))
+//@ ensures [C05]     vid:    imp(err == nil, result.VersionID == ite(B.versioning == gofakes3.VersioningEnabled, objAt(B, objectName).data.versionID, ""))
+//@ ensures [C02,C10] others: imp(err == nil, allstr(n, imp(n != objectName, hasObj(B, n) == old(hasObj(B, n)) && objAt(B, n) == old(objAt(B, n)))))
+//@ ensures [C10]     buckets: allstr(n, has(db.buckets, n) == old(has(db.buckets, n)) && db.buckets[n] == old(db.buckets[n]))
+//@ ensures           lock:   db.lock == 0
+
+//@ func (*Backend).DeleteObject
+//@ props C02 C05 C10 C09
+//@ let B = bkt(db, bucketName)
+//@ requires          inv:    dbInv(db) && db.lock == 0
+//@ ensures [C02]     nobucket: imp(!old(hasBucket(db, bucketName)), errcode(rerr) == gofakes3.ErrNoSuchBucket && unchanged())
+//@ ensures [C02]     idem:   imp(old(hasBucket(db, bucketName)), rerr == nil)
+//@ ensures [C02]     gone:   imp(old(hasBucket(db, bucketName)) && B.versioning == gofakes3.VersioningNone &&
+//@                             (!old(hasObj(B, objectName)) || old(objAt(B, objectName).versions) == nil), !hasObj(B, objectName))
+//@ ensures [C05]     marker: imp(old(hasBucket(db, bucketName)) && old(hasObj(B, objectName)) && B.versioning == gofakes3.VersioningEnabled,
+//@                             hasObj(B, objectName) && objAt(B, objectName).data.deleteMarker && result.IsDeleteMarker)
+//@ ensures [C02,C10] others: imp(old(hasBucket(db, bucketName)), allstr(n, imp(n != objectName, hasObj(B, n) == old(hasObj(B, n)) && objAt(B, n) == old(objAt(B, n)))))
+//@ ensures           lock:   db.lock == 0
+
+//@ func (*Backend).DeleteObjectVersion
+//@ props C05 C10 C09
+//@ requires          inv:    dbInv(db) && db.lock == 0
+//@ ensures [C05]     nobucket: imp(!old(hasBucket(db, bucketName)), errcode(rerr) == gofakes3.ErrNoSuchBucket && unchanged())
+//@ ensures [C05]     ok:     imp(old(hasBucket(db, bucketName)), rerr == nil)
+//@ ensures           lock:   db.lock == 0
+
+//@ func (*Backend).VersioningConfiguration
+//@ props C05 C09
+//@ requires          inv:    dbInv(db) && db.lock == 0
+//@ ensures [C05]     status: imp(hasBucket(db, bucketName), rerr == nil && versioning.Status == bkt(db, bucketName).versioning)
+//@ ensures [C05]     nobucket: imp(!hasBucket(db, bucketName), errcode(rerr) == gofakes3.ErrNoSuchBucket)
+//@ ensures           lock:   db.lock == 0
+//@ modifies db.lock
+
+//@ func (*Backend).GetObjectVersion
+//@ props C05 C11 C09
+//@ let B = bkt(db, bucketName)
+//@ requires          inv:    dbInv(db) && db.lock == 0
+//@ requires [C11]    wf:     gofakes3.wfRangeReq(rangeRequest)
+//@ ensures [C05]     cur:    imp(hasBucket(db, bucketName) && versionID != "" && hasObj(B, objectName) && objAt(B, objectName).data.versionID == versionID && ret1 == nil,
+//@                             ret0 != nil && ret0.Size == len(objAt(B, objectName).data.body) && ret0.Hash == objAt(B, objectName).data.hash &&
+//@                             ret0.Metadata == objAt(B, objectName).data.metadata && ret0.VersionID == versionID)
+//@ ensures [C05]     old:    imp(hasBucket(db, bucketName) && versionID != "" && hasObj(B, objectName) && objAt(B, objectName).data.versionID != versionID &&
+//@                             objAt(B, objectName).versions != nil && sl_has(objAt(B, objectName).versions)[vkey(versionID)] && ret1 == nil,
+//@                             ret0 != nil && ret0.Size == len(dyn(sl_val(objAt(B, objectName).versions)[vkey(versionID)], *bucketData).body) &&
+//@                             ret0.Hash == dyn(sl_val(objAt(B, objectName).versions)[vkey(versionID)], *bucketData).hash && ret0.VersionID == versionID)
+//@ ensures [C05]     noversion: imp(hasBucket(db, bucketName) && versionID != "" && hasObj(B, objectName) && objAt(B, objectName).data.versionID != versionID &&
+//@                             (objAt(B, objectName).versions == nil || !sl_has(objAt(B, objectName).versions)[vkey(versionID)]), errcode(ret1) == gofakes3.ErrNoSuchVersion)
+//@ ensures           lock:   db.lock == 0
+//@ modifies db.lock
+
+//@ func (*Backend).HeadObjectVersion
+//@ props C05 C09
+//@ let B = bkt(db, bucketName)
+//@ requires          inv:    dbInv(db) && db.lock == 0
+//@ ensures [C05]     cur:    imp(hasBucket(db, bucketName) && versionID != "" && hasObj(B, objectName) && objAt(B, objectName).data.versionID == versionID,
+//@                             ret1 == nil && ret0 != nil && ret0.Size == len(objAt(B, objectName).data.body) && ret0.VersionID == versionID)
+//@ ensures [C05]     noversion: imp(hasBucket(db, bucketName) && versionID != "" && hasObj(B, objectName) && objAt(B, objectName).data.versionID != versionID &&
+//@                             (objAt(B, objectName).versions == nil || !sl_has(objAt(B, objectName).versions)[vkey(versionID)]), errcode(ret1) == gofakes3.ErrNoSuchVersion)
+//@ ensures           lock:   db.lock == 0
+//@ modifies db.lock
+
+//@ func (*Backend).SetVersioningConfiguration
+//@ props C05 C09
+//@ requires          inv:    dbInv(db) && db.lock == 0
+//@ ensures [C05]     nobucket: imp(!hasBucket(db, bucketName) && ret0 != nil, true)
+//@ ensures           lock:   db.lock == 0
